@@ -17,7 +17,9 @@ def run_atlas_cli(b, sc, workdir, flags=(), key_by="env", start=None, end=None, 
     os.mkdir(tmp)
     f = fa.FakeAtlas(sc, tmpdir=tmp)
     try:
-        env = dict(f.env(), TMPDIR=tmp)
+        # the temporary directory as the environment may spell it: plain, with a trailing slash (the macOS default), a doubled slash, a '.' segment
+        spell = [tmp, tmp + "/", d + "//tmp", d + "/./tmp"][sum(sc.project.encode()) % 4]
+        env = dict(f.env(), TMPDIR=spell)
         args = ["redact", "--atlasProjectId", sc.project, "--atlasClusterName", sc.cluster, "-o", os.path.join(d, out_name)]
         if key_by == "env":
             env.update(ATLAS_PUBLIC_KEY=sc.public, ATLAS_PRIVATE_KEY=sc.private)
